@@ -359,7 +359,19 @@ func runC16(c *ev.Ctx) {
 	})
 	if c.Expired() {
 		c.Cut("deadline reached before the document space was completed")
+		return
 	}
+	// FormatString on containers reached through histories (observe at two indents, mutate, observe again):
+	// explicit-state search in which only the FormatString observations are judged
+	d := 5
+	if c.Thorough() {
+		d = 6
+	}
+	r1 := focusedListHistories(c, "FormatString within list histories", "format", []interface{}{1, "a", 2.5}, d, nil)
+	r2 := focusedObjectHistories(c, "FormatString within object histories", "format", d)
+	c.Set("history_subspace", map[string]interface{}{"list_states": r1.States, "list_depth": r1.DepthCompleted, "object_states": r2.States, "object_depth": r2.DepthCompleted, "transitions": c.Trans(),
+		"note": "operation alphabet of C05/C06 plus an optional 'call every observer' operation; FormatString(2) and FormatString(4) are decoded and compared with the reference model after every transition"})
+	c.Eval(int(c.Trans()))
 }
 
 func containsNL(s string) bool {
